@@ -17,6 +17,17 @@ PROPS = {
     "C13": {"trusted": ["the randomised four-square splitter is checked, not proved (op sum4 of C19 and every proof built here)"], "assumptions": COMMON_ASSUME + CRYPTO_ASSUME},
     "C14": {"trusted": ["the CBOR encoding of the keyshare challenge input is external (treated as an injective encoding)"], "assumptions": COMMON_ASSUME + CRYPTO_ASSUME},
     "C07": {"trusted": ["crypto/rand and AES-CTR outputs being fresh is an assumption; C20 covers the block counter"], "assumptions": COMMON_ASSUME + CRYPTO_ASSUME},
+    "C18": {
+        "trusted": [
+            "encoding/xml, encoding/json, fxamacker/cbor, encoding/base64 and strconv are external; their agreement with the Lean codec model (GabiModel.Serial: base64, decimal text, CBOR byte strings, key documents as element lists) is what the int-*/key-* ops test",
+            "the harness's renderer/reader between abstract key documents and XML text (go/harness/c18.go renderDoc/docFromXML)",
+            "x509 parsing of the ECDSA revocation key is an oracle of the key-document model (Env.ecdsaOk)",
+            "POSIX open(2)/fchmod(2)/umask semantics are explicit assumptions of GabiModel.Serial.FilePerm, compared with the running kernel by the filemode op",
+        ],
+        "assumptions": COMMON_ASSUME + [
+            "whole-message round trips (msg-roundtrip) are checked by running the real verifier before and after the real codec; the Lean side contributes the field codecs (integers, base64, decimal) and the compressed event list, not a model of every message type",
+        ],
+    },
     "C08": {"trusted": ["encoding/json is external; the model decoder is compared with it on every structural mutant"], "assumptions": COMMON_ASSUME},
     "C19": {
         "trusted": ["math/big (GCD, Exp, ModInverse, ModSqrt, ProbablyPrime) is external; ProbablyPrime is an oracle assumed correct (the model uses deterministic Miller-Rabin on the tested inputs)",
